@@ -49,7 +49,11 @@ JudgeIs(rec) ==
        << <<rec.r_xy = rec.r_yx, "matching is not symmetric">>,
           <<m.some => rec.r_xy = m.v, "match result differs from Debian semantics">>,
           <<rec.parsed.some => (rec.parsed.tx = rec.in.x /\ rec.parsed.ty = rec.in.y), "canonical name parsed to a different architecture">>,
-          <<rec.parsed.some => (rec.parsed.r_xy = rec.r_xy /\ rec.parsed.r_yx = rec.r_yx), "parsed architectures match differently">> >>)
+          <<rec.parsed.some => (rec.parsed.r_xy = rec.r_xy /\ rec.parsed.r_yx = rec.r_yx), "parsed architectures match differently">>,
+          <<rec.parsed.some => (rec.uc.some /\ rec.uc.tx = rec.in.x /\ rec.uc.ty = rec.in.y /\ rec.uc.r_xy = rec.r_xy /\ rec.uc.r_yx = rec.r_yx),
+            "architectures read by UnmarshalControl denote or match differently">>,
+          <<rec.parsed.some => (rec.uc_dirty.some /\ rec.uc_dirty.tx = rec.in.x /\ rec.uc_dirty.ty = rec.in.y /\ rec.uc_dirty.r_xy = rec.r_xy /\ rec.uc_dirty.r_yx = rec.r_yx),
+            "architectures read by UnmarshalControl into values that held another architecture denote or match differently">> >>)
 
 JudgeSet(rec) ==
     IF ~SetPinned(rec.in.set, rec.in.a) THEN V(TRUE, "unspecified", "")
